@@ -81,6 +81,25 @@ func (s *c09Sys) Close() {
 
 // c09Build assembles accessories from every characteristic constructor (25 per accessory) plus `extra`
 // additional switch accessories, starts the real transport and verifies L.
+// c09Scheme "high": the application chooses the accessory ids (as it does when it derives them from serial numbers):
+// 2, 2^32+2, 3, 2^32+3, 2^40+2, … — ids that differ only above bit 31 / bit 39 next to each other.
+var c09Scheme string
+
+func c09AccID(i int) uint64 {
+	if c09Scheme != "high" {
+		return 0 // assigned by the container
+	}
+	switch i % 4 {
+	case 1:
+		return 1<<32 + uint64(i/4+2)
+	case 2:
+		return 1<<40 + uint64(i/4+2)
+	case 3:
+		return 1<<63 + uint64(i/4+2)
+	}
+	return uint64(i/4 + 2)
+}
+
 func c09Build(c *fw.Ctx, extra int) (*c09Sys, error) {
 	s := &c09Sys{last: map[*characteristic.Characteristic]interface{}{}, calls: map[*characteristic.Characteristic]int{}, tlast: map[*characteristic.Characteristic]interface{}{}, tcalls: map[*characteristic.Characteristic]int{}, typed: map[*characteristic.Characteristic]bool{}}
 	s.dir = filepath.Join(c.Scratch, fmt.Sprintf("c09-%d", time.Now().UnixNano()))
@@ -95,7 +114,7 @@ func c09Build(c *fw.Ctx, extra int) (*c09Sys, error) {
 			continue
 		}
 		if n%25 == 0 {
-			cur = accessory.New(accessory.Info{Name: fmt.Sprintf("Chars%d", n/25)}, accessory.TypeOther)
+			cur = accessory.New(accessory.Info{Name: fmt.Sprintf("Chars%d", n/25), ID: c09AccID(n / 25)}, accessory.TypeOther)
 			svc = service.New(fmt.Sprintf("F%03d", n/25))
 			cur.AddService(svc)
 			accs = append(accs, cur)
@@ -295,12 +314,13 @@ func c09ParseEntries(body []byte) ([]c09Entry, error) {
 }
 
 type c09Case struct {
-	Kind  string `json:"kind"`
-	Ctor  string `json:"ctor,omitempty"`
-	Value string `json:"value,omitempty"`
-	IDs   string `json:"ids,omitempty"`
-	Len   int    `json:"len,omitempty"`
-	N     int    `json:"n,omitempty"`
+	Kind   string `json:"kind"`
+	Ctor   string `json:"ctor,omitempty"`
+	Value  string `json:"value,omitempty"`
+	IDs    string `json:"ids,omitempty"`
+	Len    int    `json:"len,omitempty"`
+	N      int    `json:"n,omitempty"`
+	Scheme string `json:"scheme,omitempty"`
 }
 
 // getIDs issues GET /characteristics for a list of (aid,iid) and validates shape: each id once, in order,
@@ -537,6 +557,11 @@ func c09Run(c *fw.Ctx) {
 
 // (A) per constructor × value: app-set → read three ways; controller-write → getter and callback.
 func c09Values1(c *fw.Ctx, part, parts int) {
+	c09Scheme = ""
+	if part%2 == 1 {
+		c09Scheme = "high" // every other part runs on a bridge whose accessory ids were chosen by the application
+	}
+	defer func() { c09Scheme = "" }()
 	s, err := c09Build(c, 0)
 	if err != nil {
 		c.Infra("build: " + err.Error())
@@ -603,7 +628,20 @@ func c09Values1(c *fw.Ctx, part, parts int) {
 				before, tbefore := s.calls[ch], s.tcalls[ch]
 				s.mu.Unlock()
 				prev := ch.Value
-				m, _, err := s.k.Do("PUT", "/characteristics", refctl.CTJSON, []byte(fmt.Sprintf(`{"characteristics":[{"aid":%d,"iid":%d,"value":%s}]}`, cc.Acc.ID, ch.ID, jv)))
+				// the entry carries the value alone, or — as a controller that writes and registers for events at once —
+				// together with "ev", in either member order
+				entry := fmt.Sprintf(`{"aid":%d,"iid":%d,"value":%s}`, cc.Acc.ID, ch.ID, jv)
+				if ch.IsObservable() {
+					switch vi % 4 {
+					case 1:
+						entry = fmt.Sprintf(`{"aid":%d,"iid":%d,"value":%s,"ev":true}`, cc.Acc.ID, ch.ID, jv)
+					case 2:
+						entry = fmt.Sprintf(`{"ev":false,"aid":%d,"iid":%d,"value":%s}`, cc.Acc.ID, ch.ID, jv)
+					case 3:
+						entry = fmt.Sprintf(`{"aid":%d,"ev":true,"value":%s,"iid":%d}`, cc.Acc.ID, jv, ch.ID)
+					}
+				}
+				m, _, err := s.k.Do("PUT", "/characteristics", refctl.CTJSON, []byte(`{"characteristics":[`+entry+`]}`))
 				if err != nil || m.Status/100 != 2 {
 					c.Report("put-failed/"+sig, fmt.Sprintf("%s: PUT of a valid value fails: %v %v", cc.Name, m, err), cas)
 					continue
@@ -709,6 +747,14 @@ func c09FindInDB(body []byte, aid, iid uint64) (interface{}, bool) {
 
 // (B) id-list shapes.
 func c09Shapes(c *fw.Ctx) {
+	for _, scheme := range []string{"", "high"} {
+		c09Scheme = scheme
+		c09Shapes1(c, scheme)
+	}
+	c09Scheme = ""
+}
+
+func c09Shapes1(c *fw.Ctx, scheme string) {
 	s, err := c09Build(c, 0)
 	if err != nil {
 		c.Infra("build: " + err.Error())
@@ -724,46 +770,71 @@ func c09Shapes(c *fw.Ctx) {
 	e := func(i int) [2]uint64 { return [2]uint64{rd[i].Acc.ID, rd[i].Ch.ID} }
 	ne := [2]uint64{999, 999}
 	ne2 := [2]uint64{rd[0].Acc.ID, 9999}
-	shapes := map[string][][2]uint64{
-		"[e]": {e(0)}, "[ne]": {ne}, "[e,ne]": {e(0), ne}, "[ne,e]": {ne, e(0)}, "[e,e]": {e(0), e(0)},
-		"[e1,e2,e3]": {e(0), e(1), e(30)}, "[e,ne-iid,e]": {e(3), ne2, e(4)}, "[ne,ne]": {ne, ne2},
-		"[50 ids]": nil,
-		// ids of two accessories alternating / descending: answered in the order asked
-		"[a1,b1,a2,b2]": {e(0), e(30), e(1), e(31)}, "[b1,a1]": {e(30), e(0)}, "[a1,ne,b1,a2]": {e(0), ne, e(30), e(1)},
-		"[b2,b1,a2,a1]": {e(31), e(30), e(1), e(0)},
-	}
+	shapes := map[string][][2]uint64{"[50 ids]": nil}
 	for i := 0; i < 50; i++ {
 		shapes["[50 ids]"] = append(shapes["[50 ids]"], e(i%len(rd)))
 	}
+	// every list of length ≤3 (thorough ≤4) over: two readable characteristics of one accessory, one of another
+	// accessory, a non-existing accessory, a non-existing instance id of an existing accessory, a write-only one
+	syms := []string{"a1", "a2", "b1", "ne", "ne-iid"}
+	ids := map[string][2]uint64{"a1": e(0), "a2": e(1), "b1": e(30), "ne": ne, "ne-iid": ne2}
 	if s.wo != nil {
-		w := [2]uint64{s.wo.Acc.ID, s.wo.Ch.ID}
-		shapes["[write-only]"] = [][2]uint64{w}
-		shapes["[e,write-only]"] = [][2]uint64{e(0), w}
+		syms = append(syms, "wo")
+		ids["wo"] = [2]uint64{s.wo.Acc.ID, s.wo.Ch.ID}
 	}
+	depth := 3
+	if c.Thorough() {
+		depth = 4
+	}
+	var rec func(h []string)
+	rec = func(h []string) {
+		if len(h) > 0 {
+			var l [][2]uint64
+			for _, x := range h {
+				l = append(l, ids[x])
+			}
+			shapes["["+strings.Join(h, ",")+"]"] = l
+		}
+		if len(h) == depth {
+			return
+		}
+		for _, x := range syms {
+			rec(append(append([]string{}, h...), x))
+		}
+	}
+	rec(nil)
 	for name, ids := range shapes {
 		c.Eval(1)
-		cas := c09Case{Kind: "shape", IDs: name}
-		es, ok := c09Get(c, s, ids, cas, name)
+		cas := c09Case{Kind: "shape", IDs: name, Scheme: scheme}
+		es, ok := c09Get(c, s, ids, cas, "list")
 		if !ok {
 			continue
 		}
 		for i, en := range es {
-			exists := false
+			var hit *c09Char
 			for _, cc := range s.chars {
 				if cc.Acc.ID == en.Aid && cc.Ch.ID == en.Iid {
-					exists = true
-					if cc.Ch.IsReadable() && (!en.hasVal || !c09Same(en.Value, normNum(cc.Ch.Value))) {
-						c.Report("shape-value/"+name, fmt.Sprintf("entry %d of %s: value differs from the application's", i, name), cas)
-					}
+					hit = cc
 				}
 			}
-			if !exists && (en.Status == nil || *en.Status == 0) {
-				c.Report("shape-missing-status/"+name, fmt.Sprintf("entry %d of %s names a non-existing characteristic but has no error status", i, name), cas)
+			failed := en.Status != nil && *en.Status != 0
+			switch {
+			case hit != nil && hit.Ch.IsReadable() && (failed || !en.hasVal || !c09Same(en.Value, normNum(hit.Ch.Value))):
+				c.Report("list-entry-readable", fmt.Sprintf("entry %d of %s (scheme %q) names a readable characteristic: it must carry the application's value and no error status, got value present=%v status=%v", i, name, scheme, en.hasVal, c09Status(en.Status)), cas)
+			case (hit == nil || !hit.Ch.IsReadable()) && (!failed || en.hasVal):
+				c.Report("list-entry-unreadable", fmt.Sprintf("entry %d of %s (scheme %q) names a non-existing or write-only characteristic: it must carry an error status and no value, got value present=%v status=%v", i, name, scheme, en.hasVal, c09Status(en.Status)), cas)
 			}
 		}
-		c.Class("shape:" + name)
+		c.Class(fmt.Sprintf("shape:len=%d", len(ids)))
 	}
-	c.Sample(map[string]interface{}{"id_list_shapes": len(shapes)})
+	c.Sample(map[string]interface{}{"id_lists": len(shapes), "scheme": scheme})
+}
+
+func c09Status(p *int) string {
+	if p == nil {
+		return "absent"
+	}
+	return fmt.Sprint(*p)
 }
 
 func normNum(v interface{}) interface{} {
@@ -873,7 +944,8 @@ func init() {
 			case "getter", "batch":
 				c09GettersAndBatches(c)
 			default:
-				c09Values1(c, 0, 1)
+				c09Values1(c, 0, 2)
+				c09Values1(c, 1, 2)
 			}
 		},
 		Budget:      func(string) time.Duration { return 20 * time.Minute },
